@@ -1,6 +1,6 @@
 #!/usr/bin/env python3
 """Imports independently written seeded changes that tools/verify_seed.sh has VERIFIED into seeded/<id>-<v>/."""
-import os, glob, json, shutil, re
+import os, glob, json, shutil, re, subprocess
 V = os.path.join(os.path.dirname(os.path.abspath(__file__)), '..')
 for out in sorted(glob.glob('/tmp/seed-verify/*.txt')):
     name = os.path.basename(out)[:-4]
@@ -24,6 +24,6 @@ for out in sorted(glob.glob('/tmp/seed-verify/*.txt')):
         'files_touched': files,
         'needs_to_manifest': 'see notes.md',
         'confirmed_by': 'tools/verify_seed.sh in a scratch worktree outside /repo and /verif: ' + first,
-        'base_commit': 'b0f500f0ea942922f1e8882bee7f7dcf88cc7928',
+        'base_commit': subprocess.check_output(['git', '-C', '/repo', 'rev-parse', 'HEAD'], text=True).strip(),
     }, open(os.path.join(dst, 'meta.json'), 'w'), indent=1)
     print('imported', name)
